@@ -105,7 +105,7 @@ func BubbleOthers() []Goroutine {
 	me := all[0]
 	var out []Goroutine
 	for _, g := range all[1:] {
-		if g.Bubble == me.Bubble {
+		if g.Bubble == me.Bubble && !strings.Contains(g.Stack, "internal/synctest.Run") && !strings.Contains(g.Stack, "synctest.testingSynctestTest") {
 			out = append(out, g)
 		}
 	}
